@@ -123,7 +123,8 @@ def apply_move(cfg, rng, tree, tree_dist):
                 tree_dist=tree_dist, chain_num=0, rng=rng, subtree_update_prob=cfg.get("subtree_prob", 0.0)))
         from phyclone.tree import Tree
 
-        return Tree.from_dict(res["trace"][-1]["tree"])
+        trace = res if isinstance(res, list) else res["trace"]
+        return Tree.from_dict(trace[-1]["tree"])
     raise ValueError(move)
 
 
